@@ -137,6 +137,15 @@ def _candidates(plan):
             c = P(plan)
             c["files"][fname]["log_times"] = False
             yield f"{fname} no log_times", c
+        if f.get("initial_bulk"):
+            for nb in (0, 8):
+                if nb < f["initial_bulk"]:
+                    c = P(plan)
+                    if nb:
+                        c["files"][fname]["initial_bulk"] = nb
+                    else:
+                        c["files"][fname].pop("initial_bulk")
+                    yield f"{fname} bulk rows {nb}", c
         if f.get("given"):
             c = P(plan)
             c["files"][fname].pop("given")
@@ -147,7 +156,7 @@ def _candidates(plan):
         yield "no stale buffer", c
     # knobs
     k = plan.get("knobs", {})
-    for key, simple in (("line_preempt", False), ("pool", "serial"), ("mode", "threads"), ("state_digest", False), ("clock_jump", 0.0), ("pool_points", False), ("pool_workers", 1), ("workdir", "w")):
+    for key, simple in (("line_preempt", False), ("pool", "serial"), ("mode", "threads"), ("state_digest", False), ("clock_jump", 0.0), ("pool_points", False), ("pool_workers", 1), ("workdir", "w"), ("relpath", None)):
         if k.get(key) != simple and key in k:
             c = P(plan)
             c["knobs"][key] = simple
